@@ -25,7 +25,9 @@ RULE = (
     "exactly those IDs in message order; a blank or absent target is None or an object whose id is "
     "None - never another ID; carried stories/items are canon-equal to the message text (roStorySend: "
     "to the independently converted story); inspect() prints without raising and its output mentions "
-    "every source ID; repr() does not raise.  Non-trivial = >= 2 sources/carried elements, or a blank "
+    "every source ID; repr() does not raise; the exposed view is the same when read twice, after "
+    "inspect(), and after the message was merged into a running order whose stories are then edited "
+    "(items deleted inside every story).  Non-trivial = >= 2 sources/carried elements, or a blank "
     "target, or compact XML.")
 ASSUMPTIONS = ['source IDs are non-blank (a blank *source* names nothing; only blank targets are in the stated domain)']
 MANDATORY = ['multi-source', 'blank-target', 'compact', 'pretty', 'inspect'] + \
@@ -62,6 +64,70 @@ def _ids(v):
     if isinstance(v, (list, tuple)):
         return [x.id for x in v]
     return [v.id]
+
+
+def msg_view(mo):
+    """Everything the message object exposes about what it names, through its accessors:
+    {accessor: [(id, canon of the wrapped element) ...]}.  Used to check that the exposed
+    view is stable (read twice, after inspect(), after merges and later edits - C13)."""
+    kind = type(mo).__name__
+    out = {}
+    with warnings.catch_warnings():
+        warnings.simplefilter('ignore')
+        for role, name in sorted(ACCESS.get(kind, {}).items()):
+            try:
+                v = getattr(mo, name)
+            except Exception as e:
+                out[name] = f'EXC {type(e).__name__}'
+                continue
+            objs = [] if v is None else (list(v) if isinstance(v, (list, tuple)) else [v])
+            if role == 'payload' or (kind == 'StorySend' and role == 'story'):
+                out[name] = [(o.id, canon(o.xml)) for o in objs]
+            else:
+                out[name] = [o.id for o in objs]
+            if kind == 'StorySend' and role == 'story' and objs:
+                try:
+                    out['story.items'] = [i.id for i in objs[0].items]
+                except Exception as e:
+                    out['story.items'] = f'EXC {type(e).__name__}'
+    return out
+
+
+def _merge_and_edit(mo, m):
+    """Merge `mo` into a running order built to contain what it references, then delete
+    one item inside every story of that running order (roItemDelete) - twice."""
+    from mosromgr.mostypes import RunningOrder
+    ids = []
+    for r in [m.story_ref, m.target if m.level == 'story' else None] + (list(m.sources) if m.level == 'story' else []):
+        if r is not None and r[0] == 'id' and r[1] not in ids:
+            ids.append(r[1])
+    item_ids = []
+    if m.level == 'item':
+        for r in [m.target] + list(m.sources):
+            if r is not None and r[0] == 'id' and r[1] not in item_ids:
+                item_ids.append(r[1])
+    for extra in ('X0', 'X1'):
+        if extra not in ids:
+            ids.append(extra)
+    stories = [gen.plain_story(sid, item_ids + ['K0', 'K1']) for sid in ids]
+    ro_id = m.base.findtext('roID') or 'RO1'
+    try:
+        ro = RunningOrder.from_string(B.tostring(B.envelope(B.ro_create(ro_id, stories), 1)))
+        try:
+            ro += mo
+        except Exception:
+            pass
+        for _round in range(2):
+            for st_ in list(ro.xml.find('roCreate').findall('story')):
+                its = [i.findtext('itemID') for i in st_.findall('item')]
+                if its and st_.findtext('storyID') is not None:
+                    try:
+                        ro += MosFile.from_string(B.tostring(B.envelope(
+                            B.item_delete(ro_id, st_.findtext('storyID'), [its[0]]), 2)))
+                    except Exception:
+                        pass
+    except Exception:
+        pass
 
 
 def judge_msg(case):
@@ -135,6 +201,10 @@ def judge_msg(case):
                         fail('story.items|wrong-ids', f'story.items exposes {got}, body carries {exp}', exp, got)
                 except Exception as e:
                     fail(f'story.items|raised-{type(e).__name__}', str(e))
+        # the exposed view is stable: reading it again, and reading it after inspect()
+        view1 = msg_view(mo)
+        if msg_view(mo) != view1:
+            fail('accessors|unstable-on-second-read', 'accessors give a different view when read twice')
         # inspect() and repr()
         buf = io.StringIO()
         try:
@@ -152,6 +222,16 @@ def judge_msg(case):
             repr(mo)
         except Exception as e:
             fail(f'repr|raised-{type(e).__name__}', str(e))
+        if msg_view(mo) != view1:
+            fail('accessors|changed-by-inspect', 'accessors give a different view after inspect() / repr()')
+        # ... and after the message was merged and the running order edited further: the
+        # object must keep exposing what the message names
+        if m.level in ('story', 'item') and not fails:
+            _merge_and_edit(mo, m)
+            if msg_view(mo) != view1:
+                fail('accessors|changed-by-merge-and-later-edit',
+                     'after merging the message and deleting items inside the stories it carries/addresses, '
+                     'its accessors expose different content', view1, msg_view(mo))
     return fails
 
 
